@@ -772,3 +772,170 @@ Example dot_csr_csr_example :
   = mkGCXS [2; 5] [0] [3; 1; 3; 2; -2; 1; -1; 3; -1] [0; 1; 3; 4; 0; 1; 2; 3; 4] [0; 4; 9] 0
   /\ gcxs_wfb (dot_csr_csr d8_a d8_b) = true.
 Proof. split; vm_compute; reflexivity. Qed.
+
+(* ------------------------------------------------------------------ csr @ csr: the linked list emits every
+   touched column once *)
+
+Lemma nth_upd_nat {A} (l : list A) n v m d :
+  (n < length l)%nat ->
+  nth m (firstn n l ++ v :: skipn (S n) l) d = if Nat.eqb m n then v else nth m l d.
+Proof.
+  revert n m. induction l as [|a r IH]; intros n m Hn; simpl in Hn; [lia|].
+  destruct n as [|n'].
+  - simpl. destruct m; reflexivity.
+  - simpl firstn. simpl skipn. destruct m as [|m']; [reflexivity|]. simpl. apply IH. lia.
+Qed.
+
+Lemma upd_length {A} (l : list A) i v : length (upd l i v) = length l.
+Proof.
+  unfold upd. destruct ((i <? 0) || (Z.of_nat (length l) <=? i)) eqn:E; [reflexivity|].
+  apply orb_false_iff in E. destruct E as [E1 E2]. apply Z.ltb_ge in E1. apply Z.leb_gt in E2.
+  rewrite app_length. cbn [length]. rewrite firstn_length_le, skipn_length by lia. lia.
+Qed.
+
+Lemma znth_upd_same {A} (l : list A) i v d :
+  0 <= i < Z.of_nat (length l) -> znth (upd l i v) i d = v.
+Proof.
+  intros Hi. unfold upd, znth.
+  destruct ((i <? 0) || (Z.of_nat (length l) <=? i)) eqn:E.
+  - apply orb_true_iff in E. destruct E as [E|E]; [apply Z.ltb_lt in E|apply Z.leb_le in E]; lia.
+  - rewrite nth_upd_nat by lia. rewrite Nat.eqb_refl. reflexivity.
+Qed.
+
+Lemma znth_upd_other {A} (l : list A) i j v d :
+  0 <= i -> 0 <= j -> i <> j -> znth (upd l i v) j d = znth l j d.
+Proof.
+  intros Hi Hj Hne. unfold upd, znth.
+  destruct ((i <? 0) || (Z.of_nat (length l) <=? i)) eqn:E; [reflexivity|].
+  apply orb_false_iff in E. destruct E as [E1 E2]. apply Z.leb_gt in E2.
+  rewrite nth_upd_nat by lia.
+  destruct (Nat.eqb_spec (Z.to_nat j) (Z.to_nat i)); [lia|reflexivity].
+Qed.
+
+Section LinkedList.
+  Variable N : Z.                       (* n_col *)
+
+  (* the list reachable from head through next_ *)
+  Fixpoint chain (nxt : list Z) (h : Z) (L : list Z) : Prop :=
+    match L with
+    | [] => h = -2
+    | k :: L' => h = k /\ chain nxt (znth nxt k 0) L'
+    end.
+
+  Definition ll_inv (st : ll_state) (L : list Z) : Prop :=
+    let '(nxt, _, head, len) := st in
+    Z.of_nat (length nxt) = N /\ NoDup L /\ Forall (fun k => 0 <= k < N) L
+    /\ chain nxt head L /\ len = Z.of_nat (length L).
+
+  Lemma chain_head_ne nxt h L : Forall (fun k => 0 <= k < N) L -> chain nxt h L -> h <> -1.
+  Proof.
+    intros Hr Hc. destruct L as [|k L']; simpl in Hc; [lia|].
+    destruct Hc as [-> _]. inversion Hr; subst. lia.
+  Qed.
+
+  Lemma chain_member_ne nxt h L k :
+    Forall (fun k => 0 <= k < N) L -> chain nxt h L -> In k L -> znth nxt k 0 <> -1.
+  Proof.
+    revert h. induction L as [|j L' IH]; intros h Hr Hc Hin; [destruct Hin|].
+    inversion Hr as [|? ? Hj Hr']; subst. destruct Hc as [-> Hc]. destruct Hin as [->|Hin].
+    - eapply chain_head_ne; eauto.
+    - eapply IH; eauto.
+  Qed.
+
+  Lemma chain_upd nxt h L k v :
+    0 <= k -> Forall (fun k => 0 <= k < N) L -> ~ In k L -> chain nxt h L -> chain (upd nxt k v) h L.
+  Proof.
+    intros Hk. revert h. induction L as [|j L' IH]; intros h Hr Hn Hc; simpl in *; [assumption|].
+    inversion Hr as [|? ? Hj Hr']; subst. destruct Hc as [-> Hc]. split; [reflexivity|].
+    rewrite znth_upd_other by (try lia; intros ->; apply Hn; left; reflexivity).
+    apply IH; auto.
+  Qed.
+
+  Lemma touch_inv st L k x :
+    0 <= k < N -> ll_inv st L -> exists L', ll_inv (touch st k x) L'.
+  Proof.
+    intros Hk. destruct st as [[[nxt sums] head] len]. intros [Hl [Hnd [Hr [Hc Hlen]]]].
+    unfold touch. destruct (Z.eqb_spec (znth nxt k 0) (-1)) as [E|E].
+    - exists (k :: L). unfold ll_inv. rewrite upd_length.
+      assert (Hnin : ~ In k L) by (intros Hin; exact (chain_member_ne nxt head L k Hr Hc Hin E)).
+      repeat split; auto.
+      + constructor; assumption.
+      + simpl. rewrite znth_upd_same by lia. apply chain_upd; auto. lia.
+      + simpl length. lia.
+    - exists L. unfold ll_inv. repeat split; auto.
+  Qed.
+
+  Lemma touches_inv {X} (f : X -> Z) (g : X -> Z) (l : list X) st L :
+    Forall (fun e => 0 <= f e < N) l -> ll_inv st L ->
+    exists L', ll_inv (fold_left (fun st e => touch st (f e) (g e)) l st) L'.
+  Proof.
+    revert st L. induction l as [|e r IH]; intros st L Hr Hi; simpl; [exists L; assumption|].
+    inversion Hr as [|? ? He Hr']; subst.
+    destruct (touch_inv st L (f e) (g e) He Hi) as [L1 H1]. eapply IH; eauto.
+  Qed.
+
+  Lemma drain_spec L : forall nxt sums head acc,
+    NoDup L -> Forall (fun k => 0 <= k < N) L -> chain nxt head L ->
+    map fst (drain (length L) nxt sums head acc) = map fst acc ++ L.
+  Proof.
+    induction L as [|k L' IH]; intros nxt sums head acc Hnd Hr Hc; simpl.
+    - rewrite app_nil_r. reflexivity.
+    - destruct Hc as [-> Hc]. inversion Hnd as [|? ? Hn Hnd']; subst. inversion Hr as [|? ? Hk Hr']; subst.
+      assert (Hne : znth nxt k 0 <> -1) by (eapply chain_head_ne; eauto).
+      destruct (Z.eqb_spec (znth nxt k 0) (-1)); [contradiction|]. simpl.
+      rewrite IH; auto.
+      + rewrite map_app, <- app_assoc. reflexivity.
+      + apply chain_upd; auto. lia.
+  Qed.
+End LinkedList.
+
+Lemma In_firstn {A} n (l : list A) x : In x (firstn n l) -> In x l.
+Proof.
+  revert l. induction n as [|n IH]; intros l H; simpl in H; [destruct H|].
+  destruct l as [|a r]; [destruct H|]. destruct H as [->|H]; [left; reflexivity|right; auto].
+Qed.
+
+Lemma In_skipn {A} n (l : list A) x : In x (skipn n l) -> In x l.
+Proof.
+  revert l. induction n as [|n IH]; intros l H; simpl in H; [assumption|].
+  destruct l as [|a r]; [destruct H|]. right. auto.
+Qed.
+
+Lemma In_slice_list {A} (l : list A) lo hi x : In x (slice_list l lo hi) -> In x l.
+Proof. unfold slice_list. intros H. apply In_firstn in H. apply In_skipn in H. exact H. Qed.
+
+Lemma csr_csr_row_raw_NoDup (a b : gcxs Z) (n_col i : Z) :
+  0 <= n_col -> Forall (fun k => 0 <= k < n_col) (g_indices b) ->
+  NoDup (map fst (csr_csr_row_raw n_col a b i)).
+Proof.
+  intros Hn Hb. unfold csr_csr_row_raw.
+  set (a_row := combine _ _).
+  set (init := (repeat (-1) (Z.to_nat n_col), repeat 0 (Z.to_nat n_col), -2, 0) : ll_state).
+  assert (Hinit : ll_inv n_col init []).
+  { unfold ll_inv, init. rewrite repeat_length. repeat split; try constructor; lia. }
+  assert (G : forall l st L, ll_inv n_col st L ->
+     exists L', ll_inv n_col
+       (fold_left (fun st (jav : Z * Z) =>
+          let '(j, av) := jav in
+          let b_row := combine (row_slice (g_indices b) (g_indptr b) j) (row_slice (g_data b) (g_indptr b) j) in
+          fold_left (fun st (kbv : Z * Z) => touch st (fst kbv) (av * snd kbv)) b_row st) l st) L').
+  { induction l as [|[j av] r IH]; intros st L Hi; simpl; [exists L; assumption|].
+    destruct (touches_inv n_col (fun kbv : Z * Z => fst kbv) (fun kbv => av * snd kbv)
+                (combine (row_slice (g_indices b) (g_indptr b) j) (row_slice (g_data b) (g_indptr b) j)) st L) as [L1 H1]; auto.
+    - apply Forall_forall. intros [k bv] Hin. apply in_combine_l in Hin. unfold row_slice in Hin.
+      apply In_slice_list in Hin. rewrite Forall_forall in Hb. simpl. auto.
+    - eapply IH. exact H1. }
+  destruct (G a_row init [] Hinit) as [L HL].
+  destruct (fold_left _ a_row init) as [[[nxt sums] head] len].
+  destruct HL as [Hl [Hnd [Hr [Hc Hlen]]]]. subst len. rewrite Nat2Z.id.
+  rewrite (drain_spec n_col L nxt sums head [] Hnd Hr Hc). simpl. assumption.
+Qed.
+
+(* the rows csr @ csr stores have strictly increasing column indices *)
+Theorem csr_csr_row_sorted (a b : gcxs Z) (n_col i : Z) :
+  0 <= n_col -> Forall (fun k => 0 <= k < n_col) (g_indices b) ->
+  strictly_increasing (map fst (csr_csr_row n_col a b i)) = true.
+Proof.
+  intros Hn Hb. unfold csr_csr_row. apply schema_RowsSortedByKernel.
+  apply csr_csr_row_raw_NoDup; assumption.
+Qed.
